@@ -7,7 +7,9 @@ with *cell environments* for the scoping fragment of `Model/Scope.lean`.
   fresh cell; leaving a block restores the environment (the cells live on in closures);
 * a closure holds the environment (the cells, not the values) of the place that created it;
 * the item of a `for` loop is one cell for the whole loop;
-* module-level names are hoisted: they have a cell from the start (holding `undef`).
+* module-level names are hoisted: they have a cell from the start (holding `undef`);
+* a declaration without initialiser (`let x;`) puts `nil` into its cell — whatever the scope it is in and
+  whoever reads it first (the declaring scope or a closure).
 
 Nothing here knows about slots, boxes, capture indices or symbol states.
 -/
@@ -69,16 +71,41 @@ def collectMethods : Tm → List (FunKind × Name × List Name × Tm)
 a reason that has nothing to do with scoping. -/
 def inRange (r : Int) : Ctl := if r.natAbs ≤ 9007199254740992 then .norm (.num r) else .fail "range"
 
+/-- the kind of a value, for `==` between values of different kinds (never equal) -/
+def Val.kind : Val → Nat
+  | .undef => 0 | .nil => 1 | .num _ => 2 | .bool _ => 3 | .str _ => 4 | .clo .. => 5
+  | .list _ => 6 | .obj _ => 7 | .cls _ => 8 | .err _ => 9 | .builtin _ => 10
+
+/-- `==` (`Value::eq`): numbers, booleans, `nil` and (interned) strings by value, lists/instances/classes by
+identity, values of different kinds are different (in particular `nil == 3` and `nil == <closure>` are `false`).
+Undefined: anything involving `undef`, and two closures/errors/natives (identity is not tracked). -/
+def valEq (a b : Val) : Ctl :=
+  match a, b with
+  | .undef, _ | _, .undef => .fail "operands"
+  | .num x, .num y => .norm (.bool (x == y))
+  | .bool x, .bool y => .norm (.bool (x == y))
+  | .nil, .nil => .norm (.bool true)
+  | .str x, .str y => .norm (.bool (x == y))
+  | .list x, .list y => .norm (.bool (x == y))
+  | .obj x, .obj y => .norm (.bool (x == y))
+  | .cls x, .cls y => .norm (.bool (x == y))
+  | a, b => if a.kind ≠ b.kind then .norm (.bool false) else .fail "operands"
+
 def arith (k : OpKind) (a b : Val) : Ctl :=
   match k, a, b with
   | .add, .num x, .num y => inRange (x + y)
   | .sub, .num x, .num y => inRange (x - y)
   | .mul, .num x, .num y => inRange (x * y)
   | .lt, .num x, .num y => .norm (.bool (x < y))
-  | .eq, .num x, .num y => .norm (.bool (x == y))
-  | .eq, .bool x, .bool y => .norm (.bool (x == y))
-  | .eq, .nil, .nil => .norm (.bool true)
+  | .eq, a, b => valEq a b
   | _, _, _ => .fail "operands"
+
+/-- `let x;`: the variable's cell (the hoisted one on the module's statement spine, a fresh one anywhere
+else) holds `nil` from the declaration on. -/
+def letNStep (top : Bool) (x : Name) (env : Env) (st : St) : Ctl × Env × St :=
+  match top, envFind env x with
+  | true, some c => (.norm .nil, env, st.write c .nil)
+  | _, _ => let (c, st) := st.alloc .nil; (.norm .nil, (x, c) :: env, st)
 
 mutual
 /-- `ev fuel top t env st`: run `t`; `top` = we are on the module's statement spine. -/
@@ -93,6 +120,7 @@ def ev : Nat → Bool → Tm → Env → St → Ctl × Env × St
       | r => r
     | .lit n => (.norm (.num n), env, st)
     | .str s => (.norm (.str s), env, st)
+    | .nilE => (.norm .nil, env, st)
     | .var _ x =>
       match envFind env x with
       | some c =>
@@ -157,6 +185,7 @@ def ev : Nat → Bool → Tm → Env → St → Ctl × Env × St
       match ev fuel false e env st with
       | (.norm v, _, st) => (.norm .nil, env, st.write c v)
       | (r, _, st) => (r, env, st)
+    | .letN _ x => letNStep top x env st
     | .fnS _ f _ _ ps body =>
       let (c, env, st) : Nat × Env × St :=
         match top, envFind env f with
